@@ -154,6 +154,35 @@ def run_check(spec, tier, seed, only_stage=None):
                 violations.append({"key": "corr_driver_" + sname, "concrete": False,
                                    "what": "model driver failed: %s" % ex, "unchecked": "corr_driver_" + sname})
                 answers = None
+            # the property predicate itself, evaluated on every answer of the
+            # implementation (not only on disagreements) where the spec asks for it
+            if spec.get("check_ok_always") and answers is not None:
+                okheads, okcases = [], []
+                for c in cases:
+                    if c["fail"]:
+                        continue
+                    okp = (spec.get("ok_pred") or {}).get(c["cmd"])
+                    val = impl_as_value(c["impl"])
+                    if okp and okp != "exact" and val is not None:
+                        okheads.append("%s %s %s" % (okp, c["head"].split(" ", 1)[1] if " " in c["head"] else "", val))
+                        okcases.append(c)
+                try:
+                    okans = run_driver(okheads)
+                except Exception as ex:
+                    okans = []
+                    violations.append({"key": "corr_driver_ok_" + sname, "concrete": False,
+                                       "what": "model driver failed on predicates: %s" % ex, "unchecked": "corr_driver_" + sname})
+                nbad = 0
+                for c, a in zip(okcases, okans):
+                    if a != "T":
+                        nbad += 1
+                        if nbad <= 5:
+                            violations.append({"key": "pred_%s_%s" % (pid, c["cmd"]), "concrete": a == "F",
+                                               "what": "property predicate is %s on the implementation's answer %r for input %s"
+                                                       % (a, c["impl"][:300], c["head"][:300]),
+                                               "unchecked": "pred_%s_%s" % (pid, c["cmd"]),
+                                               "case": {"stage": sname, "case": c["head"], "impl": c["impl"]}})
+                stats[sname + ".predicate_evaluations"] = len(okans)
             ai = 0
             n_mis = 0
             for c in cases:
